@@ -1,9 +1,11 @@
 (** C04 — every streaming call returns: no deadlock, lost wake-up or panic.
-    Proved so far: no panic site and no fuel exhaustion is reachable (all graphs incl. the empty
-    one, all StreamOpts, all event lists); see the file's end for what is still open. *)
+    Proved: no panic site and no fuel exhaustion is reachable; a pending call without an outstanding
+    wake-up always has a user future in flight (whose completion wakes it); a call that has
+    returned has no user future in flight.  Not proved: a bound on the number of self-wake-ups of
+    one settle (`settle_terminates`) – the executor loop of the harness, not library code. *)
 From FG Require Import Dag Builder Sched DagFacts EdgeFacts RankFacts BuilderFacts TopoFacts AugFacts BuildFacts
      SchedInv SafetyFacts CfgFacts StreamInv SI_Queuer SI_Step SI_Stream SafetyInv StreamFacts.
-From FG Require Import Regress.
+From FG Require Import Regress SchedInv2 SchedInv3 SI2_Step SI3_Run LiveRun OutcomeFacts.
 
 Theorem C04_no_panic : forall ops G p q rev a mt ctl lim st incl imm er evs,
   build (builder_run ops) = BOk G p q ->
@@ -22,3 +24,59 @@ Theorem C04_empty_graph_returns : forall a mt ctl lim st incl imm rev,
   is_none (result (run (mk_cfg empty_graph rev a mt ctl lim st incl imm true) [ESettle])) = false.
 Proof. intros a mt ctl lim st incl imm rev. destruct a, rev, st, ctl, lim, mt, incl; vm_compute; reflexivity. Qed.
 Print Assumptions C04_empty_graph_returns.
+
+(** All invariants and the liveness predicate, for every run on every built graph. *)
+Lemma run_all_invs : forall ops G p q rev a mt ctl lim st incl imm evs,
+  build (builder_run ops) = BOk G p q ->
+  let cf := mk_cfg G rev a mt ctl lim st incl imm true in
+  cfg_ok cf /\ Inv cf (run cf evs) /\ Inv2 cf (run cf evs) /\ Inv3 cf (run cf evs) /\ Live cf (run cf evs).
+Proof.
+  intros ops G p q rev a mt ctl lim st incl imm evs Hb cf.
+  pose proof (build_ok_intro ops G p q Hb) as Hok.
+  pose proof (cfg_ok_mk _ _ _ _ rev a mt ctl lim st incl imm true Hok) as Hc. fold cf in Hc.
+  destruct (inv2_run cf evs Hc eq_refl) as [H1 H2].
+  split; [exact Hc|]. split; [exact H1|]. split; [exact H2|].
+  split; [apply inv3_run; [exact Hc | reflexivity] | apply live_run; [exact Hc | reflexivity]].
+Qed.
+
+(** No deadlock, no lost wake-up: in every reachable state of every call in which the call is
+    pending ([result = None]) and no wake-up of its task is outstanding ([woken = false]), some
+    function it started has not completed yet – the completion of that user future wakes the task. *)
+Theorem C04_no_deadlock : forall ops G p q rev a mt ctl lim st incl imm evs,
+  build (builder_run ops) = BOk G p q ->
+  let s := run (mk_cfg G rev a mt ctl lim st incl imm true) evs in
+  result s = None -> woken s = false ->
+  exists i, In i (starts (trace s)) /\ ~ In i (ends (trace s)).
+Proof.
+  intros ops G p q rev a mt ctl lim st incl imm evs Hb s Hres Hw.
+  destruct (run_all_invs ops G p q rev a mt ctl lim st incl imm evs Hb) as (Hc & H1 & H2 & H3 & Hl).
+  destruct (no_deadlock_state _ _ Hc H1 H2 H3 Hl Hres Hw) as [i [Hi Hn]].
+  exists i. split.
+  - apply (v_started _ _ H1). right. exact Hi.
+  - intros He. apply (v_ended_split _ _ H1) in He. destruct He as [He|He]; [|exact (Hn He)].
+    exact (v_fin_wait _ _ H1 i He Hi).
+Qed.
+Print Assumptions C04_no_deadlock.
+
+(** Every user future the call started has completed by the time it returns. *)
+Theorem C04_returns_complete : forall ops G p q rev a mt ctl lim st incl imm evs o,
+  build (builder_run ops) = BOk G p q ->
+  let s := run (mk_cfg G rev a mt ctl lim st incl imm true) evs in
+  result s = Some o -> forall x, In x (starts (trace s)) -> In x (ends (trace s)).
+Proof.
+  intros ops G p q rev a mt ctl lim st incl imm evs o Hb s Hres.
+  destruct (run_all_invs ops G p q rev a mt ctl lim st incl imm evs Hb) as (Hc & H1 & H2 & _).
+  apply (ret_started_ended _ _ o H1 H2 Hres).
+Qed.
+Print Assumptions C04_returns_complete.
+
+(** Non-vacuity: a pending call with woken = false and a function in flight. *)
+Example C04_example :
+  let ops := [AddFn (mkFn 0 [] []); AddFn (mkFn 1 [] []); AddLogic 0 1] in
+  match build (builder_run ops) with
+  | BOk G _ _ =>
+    let s := run (mk_cfg G false AForEach false false 0 SNonInt true [] true) [ESettle] in
+    is_none (result s) = true /\ woken s = false /\ starts (trace s) = [0] /\ ends (trace s) = []
+  | _ => False
+  end.
+Proof. vm_compute. repeat split; reflexivity. Qed.
